@@ -360,6 +360,7 @@ def write_evidence(prop, tier, verif_seed, agg, known_hit, new, wall, search_wal
         "beyond_quantifier": dict(sorted(agg["beyond"].items())),
         "components_real": prop.REAL,
         "components_stub": prop.STUB,
+        "trusted_base": list(prop.STUB) + ["lenasim kernel (choice tape, event log, step budget), runner, shrinker"],
         "determinism_selfcheck": {"runs_rerun_in_other_process": det_checked,
                                   "digest_mismatches": det_bad},
         "known_findings_hit": {s: e["count"] for s, e in known_hit.items()},
